@@ -25,23 +25,23 @@ type Clause struct {
 }
 
 type FuncSpec struct {
-	Key       string
-	Kind      string // func functype extern iface
-	Params    []string
-	Clauses   []*Clause
-	Tags      []string
-	Inline    bool
-	Trusted   bool
-	Pure      bool
-	HasMods   bool
-	NoFrame   bool
-	File      string
-	Line      int
-	Used      bool
-	Opaque   bool
+	Key        string
+	Kind       string // func functype extern iface
+	Params     []string
+	Clauses    []*Clause
+	Tags       []string
+	Inline     bool
+	Trusted    bool
+	Pure       bool
+	HasMods    bool
+	NoFrame    bool
+	File       string
+	Line       int
+	Used       bool
+	Opaque     bool
 	InsertOnly map[string][]string // local map variable -> tags: stores never overwrite a present key
-	Unclaimed map[string]string // obligation-name suffix -> reason
-	Lets      []*LetSpec
+	Unclaimed  map[string]string   // obligation-name suffix -> reason
+	Lets       []*LetSpec
 }
 
 // LetSpec: a contract-local specification function determined by the pre-state:
@@ -53,6 +53,7 @@ type LetSpec struct {
 	Result string
 	Axioms []Expr
 	Src    string
+	Post   bool // letpost: a function of the exit state (usable in ensures only)
 }
 
 type PredSpec struct {
@@ -126,6 +127,16 @@ type EquivSpec struct {
 	Srcs                  []string
 	ByteField, IndexField string            // the parameter byte is <recv>.<ByteField>[<recv>.<IndexField>] in the pre-state
 	Skip                  map[string]string // function key -> reason the lemma is not claimed for it
+	Cross                 []*CrossSpec
+}
+
+// CrossSpec: equiv like <functype> A B [Cnn] : <condition on the byte> -- for every byte satisfying the condition, A(s, c) and
+// B(s, c) started with s.step == B behave alike (A is B reached through another state).
+type CrossSpec struct {
+	A, B string
+	Tags []string
+	Cond Expr
+	Src  string
 }
 
 // AccessSpec: the complete list of functions allowed to read / write a field (frame scan), or to write package-level state.
@@ -144,7 +155,7 @@ func NewSpecDB() *SpecDB {
 }
 
 var clauseKW = map[string]bool{"requires": true, "ensures": true, "ghostensures": true, "modifies": true, "decreases": true, "loop": true,
-	"inline": true, "trusted": true, "pure": true, "tag": true, "noframe": true, "opaque": true, "unclaimed": true, "let": true, "oncallback": true, "insertonly": true}
+	"inline": true, "trusted": true, "pure": true, "tag": true, "noframe": true, "opaque": true, "unclaimed": true, "let": true, "letpost": true, "oncallback": true, "insertonly": true}
 var topKW = map[string]bool{"func": true, "functype": true, "extern": true, "pred": true, "table": true, "specfn": true,
 	"axiom": true, "lemma": true, "ghostfield": true, "iface": true, "const": true, "ghostvar": true, "globalinv": true, "guardedby": true, "readers": true, "writers": true, "globalwriters": true, "mapranges": true, "equiv": true}
 
@@ -289,7 +300,7 @@ func (db *SpecDB) LoadFile(path string, pkg string) error {
 				return fail("%v", err)
 			}
 			cur.Clauses = append(cur.Clauses, &Clause{Kind: kind, Tags: tags, Src: src, E: e, Loop: n, File: it.file, Line: it.line})
-		case "let":
+		case "let", "letpost":
 			if cur == nil {
 				return fail("let outside func")
 			}
@@ -306,7 +317,7 @@ func (db *SpecDB) LoadFile(path string, pkg string) error {
 			if err != nil {
 				return fail("%v", err)
 			}
-			ls := &LetSpec{Name: name, Params: params, Result: strings.TrimSpace(head[j+1:]), Src: rest}
+			ls := &LetSpec{Name: name, Params: params, Result: strings.TrimSpace(head[j+1:]), Src: rest, Post: kw == "letpost"}
 			for _, ax := range splitTopLevel(rest[i+1:], ';') {
 				e, err := ParseExpr(ax)
 				if err != nil {
@@ -497,6 +508,34 @@ func (db *SpecDB) LoadFile(path string, pkg string) error {
 				for _, n := range hd[1:] {
 					es.Skip[qualifyKey(n, pkg)] = strings.TrimSpace(f[1])
 				}
+				cur = nil
+				break
+			}
+			if strings.HasPrefix(rest, "like ") {
+				// equiv like stepFunc stateA stateB [C05] : c != 35
+				f := strings.SplitN(strings.TrimPrefix(rest, "like "), ":", 2)
+				if len(f) != 2 {
+					return fail("equiv like syntax")
+				}
+				head := strings.TrimSpace(f[0])
+				tags := []string{}
+				if i := strings.Index(head, "["); i >= 0 {
+					tags, _ = splitTags(head[i:])
+					head = strings.TrimSpace(head[:i])
+				}
+				hd := strings.Fields(head)
+				if len(hd) != 3 {
+					return fail("equiv like <functype> <A> <B>")
+				}
+				es := db.Equivs[qualifyKey(hd[0], pkg)]
+				if es == nil {
+					return fail("equiv like before equiv")
+				}
+				ce, err := ParseExpr(f[1])
+				if err != nil {
+					return fail("%v", err)
+				}
+				es.Cross = append(es.Cross, &CrossSpec{A: qualifyKey(hd[1], pkg), B: qualifyKey(hd[2], pkg), Tags: tags, Cond: ce, Src: strings.TrimSpace(f[1])})
 				cur = nil
 				break
 			}
